@@ -369,7 +369,7 @@ def intest_as_out(r):
 # ------------------------------------------------------------------------------------------------
 
 class CliWs:
-    """kinds: per node one of None | 'exit' | 'timeout' | 'missing' | 'missing-first' | 'check'; a node fails with its kind
+    """kinds: per node one of None | 'exit' | 'exit-logged' | 'timeout' | 'missing' | 'missing-first' | 'check'; a node fails with its kind
     until heal() creates its flag file. sleep: per node seconds of `sleep` inside the command.
     Options (all default to nothing):
       dir_outputs   nodes that also declare a directory output d<i>/ (one.txt and sub/two.txt)
@@ -432,6 +432,10 @@ class CliWs:
             body = f"{produce}; {sl}true" if i in sleep_after else f"{sl}{produce}"   # sleep_after: outputs exist while the command still runs
             t["command"] = (f'echo "s {i} $(date +%s%N)" >> {self.trace}; {gate}{body}; '
                             f'echo "e {i} $(date +%s%N)" >> {self.trace}')
+            if k == "exit-logged":
+                # runs (sleeps), logs its end line and only then fails: the end line is the moment of the failure
+                t["command"] = (f'echo "s {i} $(date +%s%N)" >> {self.trace}; {sl}echo "e {i} $(date +%s%N)" >> {self.trace}; '
+                                f'test -f {flag} || exit 3; {produce}')
             if i in check_only:
                 t["command"] = ""
                 t["outputs"] = []
